@@ -127,11 +127,20 @@ package lexer
 //@   ensures[keywords-and-operators-keep-their-token] !(r == '-' && fl_r0 == '-') && !isNumberLexeme(r) && !isStringLexeme(r) && !has(tokens, text+string(pk_r0)) && has(tokens, text) && !tokens[text].IsFunction() ==> ret0.Type == tokens[text]
 //@   ensures[identifier-otherwise] !(r == '-' && fl_r0 == '-') && !isNumberLexeme(r) && !isStringLexeme(r) && !has(tokens, text+string(pk_r0)) && !has(tokens, text) ==> ret1 && ret0.Type == Ident && ret0.Text == text
 
+//@ ghost state func scanRemaining(s *scanner.Scanner) int
+
+// Everything unicode.IsSpace accepts is skipped (spaces, tabs, line breaks, ...): the function-name
+// lookahead does not depend on the layout of the query.
 //@ func scanSpace
-//@   modifies nothing
-//@   loop 0 modifies nothing
+//@   capture pk = call(s.Peek, 0)
+//@   modifies scanRemaining(s)
+//@   ensures[stops-at-the-first-non-space] pk_called && !unicode.IsSpace(pk_r0)
+//@   loop 0 modifies scanRemaining(s)
+//@   loop 0 body_ensures[skips-every-space] pk_called && unicode.IsSpace(pk_r0)
+//@   loop 0 decreases scanRemaining(s)
 //@ func scanFlag
-//@   modifies nothing
-//@   loop 0 modifies sb.*
+//@   modifies scanRemaining(s)
+//@   loop 0 modifies sb.*, scanRemaining(s)
+//@   loop 0 decreases scanRemaining(s)
 //@ func (*lexer).setError
 //@   modifies l.err
